@@ -1,9 +1,127 @@
 import LinfaSpec.Model.Proto
+import LinfaSpec.Model.Scalar
+import LinfaSpec.Model.Metrics
 
 namespace LinfaSpec.Drv.C05
-open LinfaSpec.Proto
+open LinfaSpec.Proto LinfaSpec.Metrics LinfaSpec
 
-/-- stub: replaced when the property's model lands -/
-def handle (_toks : List String) : String := "bad-op"
+def sh32 (x : Float32) : String := if x.isNaN then "nan" else showF32 x
+def sh64 (x : Float) : String := if x.isNaN then "nan" else showF64 x
+/-- tolerant token: the value widened to f64, marked `~` -/
+def tl32 (x : Float32) : String := "~" ++ sh64 x.toFloat
+def tl64 (x : Float) : String := "~" ++ sh64 x
+
+def showCells (m : List (List Nat)) : String := showList2 toString m
+
+/-- everything the harness reads off a `ConfusionMatrix` -/
+def cmLine {L} (showL : L → String) (r : Option (List L × List (List Nat))) : String :=
+  match r with
+  | none => "err MismatchedShapes"
+  | some (cs, m) =>
+    let ova := splitOneVsAll m
+    let ovo := splitOneVsOne m
+    let half : Float32 := 0.5
+    s!"ok members={showList showL cs} cells={showCells m} acc={sh32 (accuracy m)} " ++
+    s!"prec={sh32 (precision m)} rec={sh32 (recall m)} f1={sh32 (fScore 1 m)} fh={sh32 (fScore half m)} " ++
+    s!"mcc={sh32 (mcc m)} ova={showList3 toString ova} ovo={showList3 toString ovo} " ++
+    s!"ovap={showList (fun s => sh32 (precision s)) ova} ovar={showList (fun s => sh32 (recall s)) ova} " ++
+    s!"ovaf={showList (fun s => sh32 (fScore 1 s)) ova}"
+
+def handleCm (toks : List String) : Option String := do
+  let ty ← arg toks "ty"
+  if ty == "n" then
+    let p ← argNats toks "p"; let t ← argNats toks "t"
+    some (cmLine toString (confusion p t))
+  else if ty == "s" then
+    let p ← (arg toks "p").bind (parseList hexDecode)
+    let t ← (arg toks "t").bind (parseList hexDecode)
+    some (cmLine hexEncode (confusion p t))
+  else none
+
+def eps32 : Float32 := 1e-10
+def f32Epsilon : Float32 := Float32.ofBits 0x34000000
+
+def parseBools (toks : List String) (key : String) : Option (List Bool) := do
+  let ns ← argNats toks key
+  ns.mapM fun n => if n = 0 then some false else if n = 1 then some true else none
+
+def handleRoc (toks : List String) : Option String := do
+  let s ← (arg toks "s").bind (parseList parseF32)
+  let y ← parseBools toks "y"
+  if s.length ≠ y.length then none
+  let samples := s.zip y
+  let (curve, thr) := roc eps32 none samples
+  some s!"ok curve={showList2 sh32 (curve.map fun p => [p.1, p.2])} thr={showList sh32 thr} auc={sh32 (trapezoid curve)}"
+
+def handleLogLoss (toks : List String) : Option String := do
+  let s ← (arg toks "s").bind (parseList parseF32)
+  let y ← parseBools toks "y"
+  if s.length ≠ y.length then none
+  match logLoss f32Epsilon s y with
+  | none => some "err NotEnoughSamples"
+  | some v => some s!"ok {tl32 v}"
+
+section Reg
+variable {α : Type} [Add α] [Sub α] [Mul α] [Div α] [Neg α] [LT α] [DecidableLT α]
+  [OfNat α 0] [OfNat α 1] [OfNat α 2] [NatCast α] [Transc α]
+
+/-- the eight regression scores of one column, in a fixed order -/
+def regScores (tiny : α) (a b : List α) : List (String × Option α) :=
+  [("max", maxError a b), ("mae", meanAbsError a b), ("mse", meanSqError a b),
+   ("med", medianAbsError a b), ("mape", mape a b), ("r2", r2 tiny a b),
+   ("ev", explainedVariance tiny a b), ("msle", meanSqLogError a b)]
+end Reg
+
+def showOpt {α} (f : α → String) : Option α → String
+  | none => "none"
+  | some x => f x
+
+/-- `exact`: plain bit patterns, `msle` (libm) left out, `mape` (inexact terms summed by ndarray's
+unrolled `sum`) as a `~` token; otherwise all `~` tokens -/
+def regLine {α} (exact : Bool) (ex tl : α → String) (cols : List (List (String × Option α))) : String :=
+  let names := ["max", "mae", "mse", "med", "mape", "r2", "ev", "msle"]
+  let names := if exact then names.filter (· != "msle") else names
+  "ok " ++ " ".intercalate (names.map fun nm =>
+    nm ++ "=" ++ showList (fun c => showOpt (if exact && nm != "mape" then ex else tl) ((c.lookup nm).getD none)) cols)
+
+def transpose {β} (rows : List (List β)) (p : Nat) : List (List β) :=
+  (List.range p).map fun j => rows.filterMap fun r => r[j]?
+
+def handleReg (exact : Bool) (toks : List String) : Option String := do
+  let w ← argNat toks "w"
+  let p ← argNat toks "p"
+  let a ← argF64s2 toks "a"; let b ← argF64s2 toks "b"
+  -- rows × p matrices; p = 1 is the single-target call
+  let ca := transpose a p; let cb := transpose b p
+  if w = 64 then
+    some (regLine exact sh64 tl64 ((ca.zip cb).map fun (x, y) => regScores (1e-10 : Float) x y))
+  else if w = 32 then
+    let f := fun (l : List Float) => l.map Float.toFloat32
+    some (regLine exact sh32 tl32 ((ca.zip cb).map fun (x, y) => regScores (1e-10 : Float32) (f x) (f y)))
+  else none
+
+def sqDist (x y : List Float) : Float := sumS (List.zipWith (fun a b => (a - b) * (a - b)) x y)
+
+def handleSil (toks : List String) : Option String := do
+  let x ← argF64s2 toks "x"; let l ← argNats toks "l"
+  if x.length ≠ l.length then none
+  let d := x.map fun xi => x.map fun xj => Float.sqrt (sqDist xi xj)
+  some s!"ok {tl64 (silhouette d l)}"
+
+def handlePearson (toks : List String) : Option String := do
+  let x ← argF64s2 toks "x"; let p ← argNat toks "p"
+  some s!"ok {showList tl64 (pearson x p)}"
+
+def handle (toks : List String) : String :=
+  let r := match toks with
+    | "cm" :: rest => handleCm rest
+    | "roc" :: rest => handleRoc rest
+    | "logloss" :: rest => handleLogLoss rest
+    | "reg" :: rest => handleReg true rest
+    | "regt" :: rest => handleReg false rest
+    | "sil" :: rest => handleSil rest
+    | "pearson" :: rest => handlePearson rest
+    | _ => none
+  r.getD "bad-op"
 
 end LinfaSpec.Drv.C05
